@@ -212,8 +212,8 @@ func c09SchedHistory(r *VRand, st *VStream, stat *VStats) (ok bool, where string
 			verifYieldHook = nil
 			h.releaseAll()
 			if e := recover(); e != nil {
-				inc, ok := e.(c09Inconclusive)
-				if !ok {
+				inc, isInc := e.(c09Inconclusive)
+				if !isInc {
 					panic(e)
 				}
 				c09Abandoned.Add(1)
@@ -598,7 +598,7 @@ func c09PipeScenario(r *VRand, st *VStream, stat *VStats) (ok bool, where string
 			if world != nil {
 				world.h.releaseAll()
 			}
-			if inc, ok := e.(c09Inconclusive); ok {
+			if inc, isInc := e.(c09Inconclusive); isInc {
 				c09Abandoned.Add(1)
 				stat.Inc("pipe.abandoned-attempt")
 				st.Emit("X inconclusive pipe "+strings.ReplaceAll(inc.why, " ", "_"), "inconclusive")
